@@ -171,6 +171,11 @@ func (p *ProposerConfig) UnmarshalJSON(input []byte) error {
 		p.MinValue = &minValue
 	}
 	p.ResetRelays = data.ResetRelays
+	for address, relay := range data.Relays {
+		if relay == nil {
+			return fmt.Errorf("relay %s has no configuration", address)
+		}
+	}
 	p.Relays = data.Relays
 
 	return nil
